@@ -14,7 +14,7 @@ func c09Mk(log *[]string) rj.Inputs {
 	return rj.Inputs{Vars: map[string]interface{}{"cT": true, "cF": false, "rS": []string{"e1", "e2"}, "nameVar": "", "dir": "/sub/", "nilv": nil}, Data: "D"}
 }
 
-const c09NCallee = 26
+const c09NCallee = 29
 
 // c09Callee builds the callee file set for shape k; it returns the callee's files and whether it exists.
 func c09Callee(k int, name string) (files []*rj.File, exists bool) {
@@ -89,6 +89,14 @@ func c09Callee(k int, name string) (files []*rj.File, exists bool) {
 		f.Body = []rj.Stmt{&rj.If{Cond: rj.V("cT"), Then: []rj.Stmt{&rj.Range{K: "i", V: "v", Decl: true, X: rj.V("rS"), Body: []rj.Stmt{rj.E(rj.V("v")), &rj.If{Cond: &rj.Bin{Op: "==", L: rj.V("i"), R: rj.N(0)}, Then: []rj.Stmt{ret("R-deep")}}}}}}, rj.T("z")}
 	case 25: // missing
 		return nil, false
+	case 26: // return reached through an include that is given a context
+		f.Body = []rj.Stmt{rj.T("a"), &rj.Include{Name: rj.S("/sub/retleaf.jet"), Ctx: rj.S("IC")}, rj.T("b")}
+		files = append(files, retInc)
+	case 27: // ... through includeIfExists with a context
+		f.Body = []rj.Stmt{rj.T("a"), rj.E(&rj.IncIf{Name: rj.S("/sub/retleaf.jet"), Ctx: rj.S("IC")}), rj.T("b")}
+		files = append(files, retInc)
+	case 28: // ... through a yield with a context, of a block that returns
+		f.Body = []rj.Stmt{rj.T("a"), &rj.BlockDef{Name: "rb2", Ctx: rj.S("BC"), Body: []rj.Stmt{rj.T("blk"), rj.E(&rj.Dot{}), ret("R-block-ctx")}}, rj.T("b")}
 	}
 	return files, exists
 }
